@@ -19,7 +19,8 @@ EVAL = ['cases']
 DISTINCT = ['scenario', 'auth_scenario']
 REQUIRED = ['cases', 'faults_message_byte', 'faults_protected_byte', 'faults_record_level', 'faults_header_byte',
             'victim_failed_with_error', 'auth_cases', 'auth_controls', 'reference_runs', 'rogue_static_ecdh_keyx_calls',
-            'reneg_validator_consulted', 'reneg_refusals']
+            'reneg_validator_consulted', 'reneg_refusals', 'poisoned_session_cases',
+            'poisoned_session_rogue_knows_earlier_secret']
 EXHAUSTIVE = 'every handshake/CCS record byte of both flights for the fully swept scenarios; every record index for each record-level edit in all scenarios'
 NW = 16
 
